@@ -47,8 +47,10 @@ def expected_side_effects(prev, ts, fail_at, phys):
     of the last accepted statement's term mutates repeated_terms / tables; GraphStream.graph() additionally appends
     the graph-start rows to the flow before the triple is encoded. The rejection leaves a trace iff any term BEFORE
     the failing one was actually encoded."""
+    if phys == 3 and fail_at < 3:
+        return True   # the graph-start rows are already in the flow when a triple of the graph is rejected
     if phys == 3:
-        return True
+        return False  # an unencodable graph NAME is refused by encode_graph before anything is appended
     for j in range(fail_at):
         if prev is None or prev[1 + j] != ts[j]:
             return True
@@ -156,7 +158,9 @@ def fault(f: int, cause: int, slot: int, fs: int, rp: bool) -> bool:
                     done = bytes(pj.write_frames(list(frames), True))
                 try:
                     put(bad)
-                    return True  # not rejected after all: nothing to check for this combination
+                    # an unencodable / malformed statement was swallowed without an error: whatever was written for it
+                    # cannot denote it, so the final bytes must still decode to exactly the accepted statements
+                    continue
                 except Exception:  # noqa: BLE001
                     faulted = True
                 with notrace():
